@@ -152,6 +152,24 @@ def char_context_stream(quick):
     return out
 
 
+def array_stream():
+    """arrays read and written at every index around their bounds (-2 .. length + 2, huge, negative huge), in every place an
+    element can be used; built from literals, from MakeArray-style expressions and filled in loops"""
+    out = []
+    for n in [0, 1, 2, 3, 8]:
+        elems = ",".join(str(60 + i) for i in range(n))
+        decl = "ARRAY A=(%s) " % elems
+        for i in list(range(-2, n + 3)) + [127, 2147483647, -2147483647]:
+            for use in ["PRINT(A(%d))", "n(A(%d))", "INT X=A(%d); PRINT(X)", "A(%d)=5; PRINT(A)", "PRINT(A(%d)+1)", "IF(A(%d)){c}", "PRINT(SizeOf(A),A(%d))",
+                        "v(A(%d)) c", "INT I=%d; PRINT(A(I))"]:
+                out.append(decl + use % i + " c")
+        out.append(decl + "FOR(INT I=0;I<=SizeOf(A);I++){ n(A(I)) } c")
+        out.append(decl + "FOR(INT I=0-1;I<SizeOf(A)+2;I++){ PRINT(A(I)) } c")
+    out += ["ARRAY A=() PRINT(A(0)) c", "ARRAY A PRINT(A(0)) c", "ARRAY A=(1,(2,3),4) PRINT(A(1)) PRINT(A(3)) c", "ARRAY A=(1,2) ARRAY B=A PRINT(B(2)) c",
+            "STR S={abc} PRINT(S(3)) PRINT(S(0)) PRINT(S(-1)) c", "INT N=5 PRINT(N(1)) c"]
+    return out
+
+
 def fullwidth_stream():
     """the arms that step back and re-read a command (prev() + read_upper_command / a word reader) must re-read the CONVERTED
     character: every command letter and every command word with its first letter, or all of it, in full-width characters, in
@@ -236,7 +254,7 @@ def long_log_stream(rng, quick):
 
 def run(ctx):
     rng = ctx.rng
-    srcs = fullwidth_stream() + endless_loop_stream() + long_log_stream(rng, ctx.tier == "quick") + overflow_stream() + grammar_stream(rng, ctx.tier == "quick") + char_context_stream(ctx.tier == "quick")
+    srcs = array_stream() + fullwidth_stream() + endless_loop_stream() + long_log_stream(rng, ctx.tier == "quick") + overflow_stream() + grammar_stream(rng, ctx.tier == "quick") + char_context_stream(ctx.tier == "quick")
     ctx.dist["grammar_and_char_streams"] = len(srcs)
     if ctx.tier == "quick":
         srcs += ["".join(p) for p in itertools.product(FRAGS, repeat=1)]
